@@ -30,10 +30,21 @@ struct Shared {
   unodb::optimistic_lock lock;
   unodb::in_critical_section<std::uint64_t> d1{0};
   unodb::in_critical_section<std::uint64_t> d2{0};
-  std::uint64_t word() const {
+  std::uint64_t raw_word() const {
     std::uint64_t w;
     std::memcpy(&w, &lock, sizeof w);  // the lock word is the first member
     return w;
+  }
+  // --word-offset: the execution starts from a lock that has already seen offset/4 write sections (a legitimate
+  // state of any long-lived lock); the reported words are relative to it, so the specification's small versions
+  // apply unchanged.  With an offset just below 2^32 the words cross the 32-bit boundary during the run.
+  static inline std::uint64_t offset = 0;
+  void preset() {
+    if (offset != 0) std::memcpy(static_cast<void*>(&lock), &offset, sizeof offset);
+  }
+  std::uint64_t word() const {
+    const auto w = raw_word();
+    return w == 1 ? 1 : w - offset;
   }
 };
 
@@ -126,6 +137,7 @@ struct Step {
 void run_behaviour(int nthreads, int nsections, const std::vector<Step>& steps, vh::Rng* rng, int random_steps,
                    std::string& outline) {
   auto sh = std::make_unique<Shared>();
+  sh->preset();
   std::vector<Local> locals(static_cast<std::size_t>(nthreads));
   vs::Sched sched(&vs::Sched::every_access);
   for (int t = 0; t < nthreads; ++t) {
@@ -145,7 +157,7 @@ void run_behaviour(int nthreads, int nsections, const std::vector<Step>& steps, 
   auto emit = [&](int t, const char* pend) {
     const auto& l = locals[static_cast<std::size_t>(t)];
     os << "|" << (t + 1) << ' ' << pend << ' ' << sh->word() << ' ' << sh->d1.load() << ' ' << sh->d2.load() << ' '
-       << l.out << ' ' << l.r1 << ' ' << l.r2 << ' ' << l.ver;
+       << l.out << ' ' << l.r1 << ' ' << l.r2 << ' ' << (l.ver >= Shared::offset ? l.ver - Shared::offset : l.ver);
   };
   if (rng == nullptr) {
     // Lockstep with the spec behaviour as long as the code's step structure
@@ -240,6 +252,7 @@ int main(int argc, char** argv) {
     else if (a == "--seed" && i + 1 < argc) seed = std::strtoull(argv[++i], nullptr, 10);
     else if (a == "--threads" && i + 1 < argc) rthreads = std::atoi(argv[++i]);
     else if (a == "--sections" && i + 1 < argc) rsections = std::atoi(argv[++i]);
+    else if (a == "--word-offset" && i + 1 < argc) Shared::offset = std::strtoull(argv[++i], nullptr, 10);
   }
 #ifdef NDEBUG
   std::printf("H ndebug\n");
